@@ -34,6 +34,13 @@ rejects an instance that is not in its pool.  Histories that hand a DELETED inst
 Exception first when no association matches; an unrelate is UnrelateException since the delete removed every
 pair), nothing may change, and no deleted instance may ever be reachable.  (Formerly the open finding
 `use-after-delete`: relate() accepted the deleted instance; repaired in /repo by the `deleted` set of MetaClass.)
+Family `relspell` (the SPELLING of the association identifier): an association is named by the identifier it was defined
+under ('R<n>') or by the integer n; every other value names no association of the model - near-miss spellings of a defined
+identifier (sign, blanks, leading zeros, underscores between digits, non-ASCII decimal digits, lower case, the bare number
+as text, doubled / missing prefix, float / hex / suffix forms, neighbouring numbers, negative / scaled integers) are UNKNOWN
+associations: relate / unrelate with them have to be rejected with UnknownLinkException and change nothing, whatever is or
+is not linked across the association they resemble; the integer n has to behave exactly like 'R<n>'.  Histories whose
+identifiers are all text also run on the model (K); histories with integer identifiers are D-only.
 """
 import itertools
 
@@ -51,12 +58,22 @@ RULE = ('per association shape (1:1, 1:M, M:1 unconditional, reflexive with phra
         'loader-built model; family `late`: the same histories on a model whose associations are formalised AFTER instances exist '
         '(each association at its own point of a history prefix run through the API, or instances created with key values, '
         'batch_relate(), then formalize()), exhaustively for every single op and sampled op pairs after a prelude created '
-        'before formalize(), and randomly. Non-trivial: at least one accepted and one rejected '
+        'before formalize(), and randomly; family `relspell`: the association identifier of a relate / unrelate is spelt in '
+        'every way near a defined one (per defined R<n>: sign, blanks / tab / newline around or inside, leading zeros, '
+        'underscores, 5 non-ASCII decimal digit scripts, lower case, bare number as text, doubled / missing prefix, float / '
+        'hex / binary / suffix forms, neighbouring and truncated numbers; integers n, -n, 10n, n+1000, 0): over every shape '
+        '(and one with R1 and R10 between the same two classes) each spelling in relate and unrelate, both argument orders, '
+        'on an unlinked and on a linked pair (quick: 3 of these 8 per spelling, thorough: all), plus random histories '
+        'in which 20% of the identifiers are such spellings and (in every second history) 15% the integer form. '
+        'Non-trivial: at least one accepted and one rejected '
         'relate or unrelate, or a delete of a linked instance; distinct = distinct (shape, history)')
 EXHAUSTIVE = {'quick': True, 'thorough': True}
 ASSUMPTIONS = ['none on the histories: relate / unrelate / delete are applied to live AND to deleted instances (family uad: a '
                'relate with a deleted argument has to be rejected with RelateException)',
-               'ids come from xtuml.IntegerGenerator; each class has at most one own unique_id attribute']
+               'ids come from xtuml.IntegerGenerator; each class has at most one own unique_id attribute',
+               'an association is KNOWN under the identifier it was defined with (text, compared exactly) and under the integer n '
+               "for 'R<n>'; any other text or integer names no association (family relspell); identifiers of other types "
+               '(bool, float, None) are not generated']
 CHUNK = 3000
 CASE_TIMEOUT_S = 20
 BUDGET_S = {"quick": 240, "thorough": 1800}
@@ -65,6 +82,115 @@ BUDGET_S = {"quick": 240, "thorough": 1800}
 def setup(ctx):
     import xtuml
     mc.bind(xtuml)
+
+
+# shapes only this property uses (mc.SHAPES is shared with C09 / C11 / C16): two associations between the SAME two classes
+# whose numbers differ by a trailing zero (R1 / R10), so that a lenient reading of a misspelt identifier lands on the other
+LOCAL_SHAPES = {
+    'digit_rels': {'classes': [mc.C('A', 'Id', [('B_Id', 'unique_id'), ('Other_B_Id', 'unique_id')]), mc.C('B', 'Id')],
+                   'assocs': [mc.A('R1', 0, ['B_Id'], True, True, '', 1, ['Id'], False, True, ''),
+                              mc.A('R10', 0, ['Other_B_Id'], False, True, '', 1, ['Id'], False, True, '')]},
+}
+
+
+def shape_of(name):
+    return LOCAL_SHAPES[name] if name in LOCAL_SHAPES else mc.SHAPES[name]
+
+
+def all_shapes():
+    return sorted(list(mc.SHAPES.items()) + list(LOCAL_SHAPES.items()))
+
+
+_DIGIT_SCRIPTS = (0xFF10, 0x0660, 0x06F0, 0x0966, 0x1D7CE)     # fullwidth, Arabic-Indic, extended Arabic-Indic, Devanagari, maths bold
+
+
+def rel_spellings(rels):
+    """near-miss spellings of the defined association identifiers `rels` ('R<n>'): texts and integers of which none is
+    meant to name an association (the oracle decides: a spelling that happens to EQUAL a defined identifier, e.g. the
+    truncation 'R1' of 'R12' where R1 exists, is simply a valid one)"""
+    out = []
+    for rel in rels:
+        d = rel[1:]
+        if rel[:1] != 'R' or not d.isdigit():
+            continue
+        n = int(d)
+        out += ['R+' + d, 'R-' + d, 'R ' + d, 'R' + d + ' ', ' R' + d, 'R' + d + '\n', 'R\t' + d, '\tR' + d, 'R0' + d, 'R00' + d,
+                'R' + d + '_', 'R_' + d, 'R__' + d, 'r' + d, d, '+' + d, ' ' + d, '0' + d, 'RR' + d, 'R' + d + '.0', 'R' + d + '.',
+                'R' + d + 'e0', 'R0x' + d, 'R0b' + d, 'R0o' + d, 'R' + d + 'L', 'R' + d + 'l', 'R' + d + '0', 'R' + d[:-1], 'R', '',
+                'X' + d, 'R' + d + 'R', 'R(' + d + ')', "R'" + d + "'", 'R%d' % (n + 1), 'R%d' % (n + 1000), 'R' + d + d,
+                u'R\u2212' + d, u'R' + d + u'\u00a0', u'R\u3000' + d]
+        for i in range(1, len(d)):
+            out += ['R' + d[:i] + '_' + d[i:], 'R' + d[:i] + ' ' + d[i:], 'R' + d[:i] + '.' + d[i:]]
+        out += ['R' + d[0] + '_0', 'R' + d + '_0', 'R' + d + '_' + d]
+        for base in _DIGIT_SCRIPTS:
+            t = u''.join(chr(base + int(c)) for c in d)
+            out += [u'R' + t, t, u'R' + t + u'0', u'R0' + t]
+        out += [-n, 10 * n, n + 1000, n + 1, 0]
+    seen, res = set(), []
+    for v in out:
+        key = (type(v).__name__, v)
+        if key not in seen and v not in rels:
+            seen.add(key)
+            res.append(v)
+    return res
+
+
+def rel_number(rel):
+    """the integer that names the association defined as 'R<n>' (None when the identifier has no such form)"""
+    return int(rel[1:]) if rel[:1] == 'R' and rel[1:].isdigit() and str(int(rel[1:])) == rel[1:] else None
+
+
+def _generate_relspell(ctx):
+    """family `relspell`, see the module text"""
+    per = ctx.pick(3, 8)
+    for name, schema in all_shapes():
+        rels = sorted(set(a['rel'] for a in schema['assocs']))
+        spell = rel_spellings(rels) + [n for n in map(rel_number, rels) if n is not None]
+        pre = prelude(schema, 2)
+        rng = ctx.rng.fork('relspell-exh', name)
+        for ai, a in enumerate(schema['assocs']):
+            x, y = 2 * a['src'], 2 * a['tgt'] + (1 if a['src'] == a['tgt'] else 0)      # the first instance of each class
+            combos = [(linked, nm, order) for linked in (False, True) for nm in ('relate', 'unrelate') for order in (0, 1)]
+            for sp in spell:
+                for linked, nm, order in (combos if per >= len(combos) else rng.sample(combos, per)):
+                    ops = list(pre)
+                    if linked:
+                        ops.append(['relate', x, y, a['rel'], a['sphrase']])
+                    ops.append([nm, x, y, sp, a['sphrase']] if order == 0 else [nm, y, x, sp, a['tphrase']])
+                    # ... and the pair is still (un)linked under the proper identifier afterwards
+                    ops.append(['unrelate' if linked else 'relate', x, y, a['rel'], a['sphrase']])
+                    yield {'shape': name, 'ops': ops, 'fam': 'relspell'}
+    rr = ctx.rng.fork('relspell')
+    shapes = dict(all_shapes())
+    for i in range(ctx.pick(300, 5000)):
+        r = rr.fork(i)
+        name = r.choice(sorted(shapes))
+        schema = shapes[name]
+        rels = sorted(set(a['rel'] for a in schema['assocs']))
+        ops = _random_history(r, schema, ctx.pick(80, 400))
+        spell = rel_spellings(rels)
+        texts = [v for v in spell if not isinstance(v, int)]
+        with_int = i % 2 == 1
+        for o in ops:
+            if o[0] not in ('relate', 'unrelate') or o[3] not in rels:
+                continue
+            w = r.random()
+            if w < 0.2:
+                o[3] = r.choice(spell if with_int else texts)
+            elif w < 0.35 and with_int and rel_number(o[3]) is not None:
+                o[3] = rel_number(o[3])
+        yield {'shape': name, 'ops': ops, 'fam': 'relspell'}
+
+
+def search(ctx, broken):
+    """targeted generator for a broken tie: the small families that vary ONE input dimension first (identifier spellings),
+    then everything `generate` has, at the thorough sizes"""
+    for c in _generate_relspell(ctx):
+        if in_domain(c['ops']):
+            yield c
+    for c in generate(ctx):
+        if c.get('fam') != 'relspell':
+            yield c
 
 
 def alphabet(schema, n_inst_per_class):
@@ -158,6 +284,8 @@ def generate(ctx):
 
 def _generate(ctx):
     # the (small) family `late` first: the exhaustive product below may use up the whole time budget of a tier on a busy machine
+    for c in _generate_relspell(ctx):
+        yield c
     for c in _generate_late(ctx):
         yield c
     depth = ctx.pick(2, 3)
@@ -380,14 +508,22 @@ class Oracle(object):
     def resolve(self, k1, k2, rel, phrase):
         """(association index, x(target side), y(source side)) candidates; the statement's notion of a known link"""
         out = []
+        if isinstance(rel, int) and not isinstance(rel, bool):
+            rel = 'R%d' % rel            # the integer n names the association R<n>
         for i, a in enumerate(self.schema['assocs']):
-            if a['rel'] != rel:
+            if not isinstance(rel, str) or a['rel'] != rel:
                 continue
             if a['tgt'] == k1 and a['src'] == k2 and a['tphrase'] == phrase:
                 out.append((i, 'fwd'))
             if a['src'] == k1 and a['tgt'] == k2 and a['sphrase'] == phrase:
                 out.append((i, 'rev'))
         return out
+
+    def resolve_rel(self, rel):
+        """does the identifier name an association of the schema at all (any kinds, any phrase)"""
+        if isinstance(rel, int) and not isinstance(rel, bool):
+            rel = 'R%d' % rel
+        return isinstance(rel, str) and any(a['rel'] == rel for a in self.schema['assocs'])
 
     def expected(self, op):
         """set of acceptable outcomes and the state update to apply for each (None = ambiguous: accept impl)"""
@@ -675,7 +811,7 @@ def run_impl(case):
         return _run_newref(case)
     if case.get('fam') == 'churn':
         return _run_churn(case)
-    schema = mc.SHAPES[case['shape']]
+    schema = shape_of(case['shape'])
     route = case.get('route')
     k0 = case['prefix'] if route in ('sql', 'late') else 0
     late_api = route == 'late' and case['how'] == 'api'       # the prefix runs through the API, formalize() in between
@@ -744,6 +880,12 @@ def run_impl(case):
             got = model.apply(op)
             after = model.deep_dump()
             stats['op_' + op[0]] = stats.get('op_' + op[0], 0) + 1
+            if op[0] in ('relate', 'unrelate'):
+                if not isinstance(op[3], str):
+                    kind = 'rel_id_integer_known' if orc.resolve_rel(op[3]) else 'rel_id_integer_unknown'
+                else:
+                    kind = 'rel_id_text_known' if orc.resolve_rel(op[3]) else 'rel_id_text_unknown'
+                stats[kind] = stats.get(kind, 0) + 1
             stats['out_' + str(got)] = stats.get('out_' + str(got), 0) + 1
             if str(got) != want:
                 fail('outcome', '%s gave %s, the statement requires %s' % (op, got, want), step)
@@ -856,7 +998,9 @@ def run_impl(case):
 def model_line(case):
     if case.get('fam') in ('newref', 'churn', 'compound'):
         return None              # D-only families
-    return mc.meta_line(mc.SHAPES[case['shape']], case['ops'])
+    if any(o[0] in ('relate', 'unrelate') and not isinstance(o[3], str) for o in case['ops']):
+        return None              # an integer as association identifier: the model's identifiers are texts (D only)
+    return mc.meta_line(shape_of(case['shape']), case['ops'])
 
 
 def model_obs(case, ans):
